@@ -415,4 +415,12 @@ def r3_reward(ctx):
         r.check(q.novers(a) == ("try", ("param", 2, "action")), "action-arg", "the action applied is the caller's", "the action applied is %s" % show(a), seal.where(bi))
 
 
-RULES = [r1_fee_gate, r2_split, r3_reward]
+def shared(ctx):
+    """the minimum fee is a function of the transaction and the multiplier alone: nothing on the fee path may remember earlier transactions (C03.R5: no new
+    mutable global state — a memo of weights keyed by anything coarser than the whole transaction prices a padded transaction at its slim weight)"""
+    from rules.engine import core
+    from rules.props import c03
+    core.import_rules(ctx, [c03.r5_globals], "X03")
+
+
+RULES = [r1_fee_gate, r2_split, r3_reward, shared]
